@@ -141,6 +141,7 @@ class PathState:
         self.solver = z3.Solver()
         self.solver.set('timeout', INCREMENTAL_TIMEOUT_MS)
         self._incremental_lost = 0 # number of `unknown` answers of the incremental solver on this path
+        self._fresh_timeout = FEAS_TIMEOUT_MS
         self.established = {}      # ids of terms that are conjuncts of the (unscoped) path condition
         self._not_established = {} # term id -> len(pc) when it was last found not to be entailed
         self.len_solver = z3.Solver()   # integers and string lengths only (abstraction of pc): boundary questions
@@ -263,10 +264,14 @@ class PathState:
         if r == z3.unknown:
             # z3's incremental mode is much weaker on strings than a fresh solver on the same assertions
             fresh = z3.Solver()
-            fresh.set('timeout', FEAS_TIMEOUT_MS)
+            fresh.set('timeout', self._fresh_timeout)
             fresh.add(self.solver.assertions())
             fresh.add(*assumptions)
             r = fresh.check()
+            if r == z3.unknown:
+                # the path condition is beyond the solver: do not spend the full budget on every later question
+                # of this path (unknown = explore, which is sound)
+                self._fresh_timeout = max(300, self._fresh_timeout // 2)
         dt = _t.time() - t0
         if dt > 1.0 and os.environ.get('PYVC_DUMP_SLOW'):
             k = self.stats.get('n_dumped', 0)
